@@ -3,12 +3,13 @@ from vlib.core import Report, run_bounded
 from pyvc.check import run_proofs, attach_bounded_witness, proof_findings
 
 MODS = ["contracts.c11_equality"]
+TERM_MODS = ["contracts.c11_terms"]
 
 
 def run(tier, seed):
     from contracts.c11_equality import KEYS
     rep = Report(property_id="C11", level="proof")
-    rep.rule = ("proof part: IFF characterisation of the 13 _equiv_nodes methods, of ViewRepresentation.__eq__ (loop over sources, recursion through its own "
+    rep.rule = ("proof part: IFF characterisation of the is_equal methods of the five expression classes (ListTerm incl. its element loop, Expression incl. params and argument loops) and of the 13 _equiv_nodes methods, of ViewRepresentation.__eq__ (loop over sources, recursion through its own "
                 "contract), RecordMap.__eq__ and RecordSpecification.__eq__ against the reviewed semantic field sets; bounded ride-along: all ordered pairs of a "
                 "family of pipelines varying one argument at a time: a == b => same SQL in five dialects and same Pandas result, reflexive, symmetric; "
                 "non-trivial = pair of distinct pipelines")
@@ -20,6 +21,8 @@ def run(tier, seed):
         "reflexivity and symmetry follow from the IFF characterisations by a two-line paper argument",
     ]
     run_proofs(rep, MODS, KEYS)
+    from contracts.c11_terms import KEYS as TKEYS
+    run_proofs(rep, TERM_MODS, TKEYS)
     from cbc import c11
     proof_findings(rep, {"TableDescription.__eq__.equal-tables-have-equal-columns-and-qualifiers": c11.witness_table_eq})
     run_bounded(rep, "cbc.c11", tier, seed, timeout_s=300)
